@@ -67,6 +67,7 @@ def render_doc(f, rnd):
                 emit("%s  Examples: E%d" % (ind, ex["id"]))
                 emit("%s    | x |" % ind)
                 for r in range(ex["rows"]):
+                    filler()            # comment / blank lines inside a table: a row is addressed by the line it stands on
                     rl = emit("%s    | %d |" % (ind, r))
                     name = "O%d -- @%d.%d E%d" % (it["id"], ei + 1, r + 1, ex["id"])
                     rows.append((rl, name))
